@@ -61,7 +61,7 @@ def _case(draw, tier):
     with_pid = draw(st.sampled_from([True, True, True, False]))
     reject_first = draw(st.sampled_from([None, None, None, "size", "cks"])) if with_pid else None
     alphabet = _sharing_ops if draw(st.integers(0, 3)) == 0 else _other_ops
-    hist = draw(st.lists(alphabet(cfg["algo"]), min_size=0, max_size=10)) if with_pid else []
+    hist = draw(ops.history(alphabet(cfg["algo"]), 0, 10)) if with_pid else []
     # calls on the other pids BEFORE the target is stored (they may own the content first)
     pre = draw(st.lists(alphabet(cfg["algo"]), min_size=0, max_size=3)) if with_pid else []
     return {"cfg": cfg, "contents": [content, other], "docs": [{"hex": "6d657461"}], "kind": kind,
